@@ -14,14 +14,8 @@ Lemma quat_eq {F : Type} {FO : Carrier F} (v1 v2 : vec3 F) (w1 w2 : F) :
 Proof. intros; subst; reflexivity. Qed.
 
 Ltac quat_destruct q := destruct q as [[? ? ?] ?].
-Ltac quat_unfold :=
-  unfold Quat.Quaternion_Rotate, Quat.Quaternion_Multiply, Quat.New, Quat.Identity, Quat.Zero,
-    Quat.Quaternion_Dir, Quat.Quaternion_W, Quat.Quaternion_Vector4,
-    rotate_spec, hamilton, qconj, qpure, qnorm2, v3_neg in *;
-  cbv zeta in *;
-  cbn [Quat.Quaternion_v Quat.Quaternion_w] in *;
-  vec_unfold;
-  cbn [Quat.Quaternion_v Quat.Quaternion_w v3x v3y v3z] in *.
+(* everything (generated code, helpers it calls, specifications, vector prelude) down to the carrier operations *)
+Ltac quat_unfold := gen_full.
 
 Section QuatRing.
 Context {F : Type} {FO : Carrier F} (RC : ring_carrier FO).
@@ -108,7 +102,7 @@ Proof. destruct a, b. quat_unfold. cring. Qed.
 Theorem half_turn n a : v3_dot n a = c0 ->
   Quat.Quaternion_Rotate (Quat.mkQuaternion n c0) a = v3_scale (v3_neg a) (v3_dot n n).
 Proof.
-  destruct n as [n1 n2 n3], a as [a1 a2 a3]. quat_unfold. intros H. apply v3_eq'; lits.
+  destruct n as [n1 n2 n3], a as [a1 a2 a3]. intros H. gen_full_in H. quat_unfold. apply v3_eq'; lits.
   - transitivity (((n1 * a1 + n2 * a2 + n3 * a3) * (n1 * (c1 + c1))) + - a1 * (n1 * n1 + n2 * n2 + n3 * n3)); [ring|].
     rewrite H. ring.
   - transitivity (((n1 * a1 + n2 * a2 + n3 * a3) * (n2 * (c1 + c1))) + - a2 * (n1 * n1 + n2 * n2 + n3 * n3)); [ring|].
